@@ -85,7 +85,7 @@ func c17grammarAs(c *core.Ctx, R string) {
 	// initial step from newScanner
 	initial := ""
 	if ns := c.P.Func("rules/enum", "newScanner"); ns != nil {
-		in := absint.New(absint.Config{InModule: c.P.FuncInModule, Inline: func(f *ssa.Function) bool { return false }})
+		in := absint.New(absint.Config{InModule: c.P.FuncInModule, Inline: func(f *ssa.Function) bool { return f.Pkg == ns.Pkg && sameResult(f, ns) }})
 		for _, o := range in.Run(ns, []absint.Val{absint.Param("file"), absint.Const{}}, nil) {
 			if p, ok := o.Val.(absint.Ptr); ok {
 				if v, ok := o.St.Mem(absint.Ptr{Base: p.Base, Path: ".step"}.Key()); ok {
